@@ -49,10 +49,10 @@ def make_overlay(prop, pkgs, models):
             f.write("\n#[cfg(kani)]\n#[allow(warnings)]\nmod verif_kani;\n")
         # child modules of private modules (need access to private fields): append
         # `#[cfg(kani)] #[path] mod` to the named source file, nothing else is edited
-        for srcfile, modfile in registry.INJECT.get(pkg, []):
+        for srcfile, modfile, cfg in registry.INJECT.get(pkg, []):
             with open(os.path.join(cr, srcfile), "a") as f:
                 name = "verif_kani_" + modfile.replace(".rs", "")
-                f.write(f"\n#[cfg(kani)]\n#[allow(warnings)]\n#[path = \"verif_kani/{modfile}\"]\nmod {name};\n")
+                f.write(f"\n#[cfg({cfg})]\n#[allow(warnings)]\n#[path = \"verif_kani/{modfile}\"]\nmod {name};\n")
     cargo = os.path.join(ov, "Cargo.toml")
     txt = open(cargo).read()
     add = ""
